@@ -358,7 +358,10 @@ def avoid_flags(meta, entry, second):
     has_dyn = any(meta["dyn"].get(n) for n in names)
     walks = [entry] + ([second] if second else [])
     if meta.get("parsefail"):
-        return flags
+        # an evaluation that depends on the module that does not parse fails while loading: nothing is linked or run
+        walks = [w for w in walks if meta["parsefail"] not in reach(static, [w])]
+        if not walks:
+            return flags
     comp = sccs(names, static)
     size = {}
     for n in names:
